@@ -42,7 +42,10 @@ var (
 	i3DocMods   = []string{"elemhide", "generichide", "jsinject", "document", "urlblock", "genericblock", "content", "extension", "important"}
 	i3Selectors = []string{".banner", "#ad", ".ad-box", ".x", ".sponsor"}
 	i3Rewrites  = []string{"1.2.3.4", "1.2.3.5", "::1", "new.example.net", "NXDOMAIN", "REFUSED", "NOERROR;A;1.2.3.4",
-		"NOERROR;TXT;hello", "NOERROR;MX;10 mail.example.net", "NOERROR;CNAME;new.example.net", "noerror;a;1.2.3.4"}
+		"NOERROR;TXT;hello", "NOERROR;MX;10 mail.example.net", "NOERROR;CNAME;new.example.net", "noerror;a;1.2.3.4",
+		// record types without a value parser: type kept, value nil (an exception with such a value disables
+		// only rewrites of that type, it is not the empty value)
+		"NOERROR;NS;ns1.example.net", "NOERROR;NS;", "noerror;caa;0 issue ca.example.net", "NOERROR;SOA;x", "NOERROR;DNAME;new.example.net"}
 )
 
 func i3Mods(r *rng, pool []string, maxN int) string {
